@@ -193,3 +193,6 @@ P["C17"]["extra_modules"] = P["C17"]["extra_modules"] + ["Irc.Props.C17Traffic"]
 # events gives each receiver exactly the copies queued for it, once, in push order (nothing_lost, sender_receiver_fifo)
 P["C01"].setdefault("extra_modules", [])
 P["C01"]["extra_modules"] = P["C01"]["extra_modules"] + ["Irc.Props.C18Order"]
+# every numeric reply the server can emit (all 100 generated definitions) parses as `:server NNN client …`, independent of
+# the wording of the trailing texts (reply_is_wellformed; Irc/Props/C13Replies*.lean)
+P["C13"]["extra_modules"] = P["C13"]["extra_modules"] + ["Irc.Props.C13Replies"]
